@@ -7,6 +7,8 @@ Two observation points (the property's observe_at):
     integers on a binary grid; scores are compared with tolerance 1e-9; cases in which any top-k decision
     of the model is closer than 1e-6 are counted and skipped);
   * pydrobert.torch.functional.beam_search_advance on dyadic scores (regime E, exact comparison).
+An extreme-magnitude stream (gen_extreme) uses logits scaled by 100..1000, shifted by +-100..1000 or dominated by
+one entry, in float32 and float64 (tolerance/margin from the rounding bound of the sums, _tol_margin).
 Every BeamSearch output is also judged by the Coq spec checker (PV.C04.Spec.spec_okb), which involves no
 beam-search model, and by the batch-independence relation (each element searched alone).
 """
@@ -147,19 +149,21 @@ def _scale(case):
     return GRID, [[None if float(x) == NINF else round(Fraction(float(x)) * GRID) for x in row] for row in lp]
 
 
-def _tol_margin(case, den, tab):
+def _tol_margin(case, den, tab, S=None):
     """(tolerance, near-tie margin) as integers on the grid.  The implementation adds at most `steps` rounded
     terms; a partial sum is at most steps*maxabs in magnitude, so the accumulated rounding error is below
     u*maxabs*steps*(steps+1) with u = 2^-51 (float64) or 2^-22 (float32) -- a factor 4 above the half-ulp bound,
     which also absorbs a last-place difference between two evaluations of torch's log_softmax.  For O(1)..O(10)
     float64 logits this is far below the fixed 1e-9 / 1e-6, which stay the floor; only the extreme-magnitude and
-    float32 cases widen it.  Every discrete decision of the model is kept at >= 4*tolerance (else: skipped as tie)."""
+    float32 cases widen it.  Every discrete decision of the model is kept at >= 2*tolerance (else: skipped as tie;
+    a decision of the implementation can differ only if the exact scores are closer than tolerance/2).
+    steps = y.size(0) of the implementation's answer when there is one (one addition per step), else the fuel."""
     maxabs = max([abs(x) for row in tab for x in row if x is not None] + [0])
-    steps = max(1, _fuel(case))
+    steps = max(1, _fuel(case) if S is None else min(S, _fuel(case)))
     u = Fraction(1, 2 ** 22) if _f32(case) else Fraction(1, 2 ** 51)
     err = math.ceil(u * maxabs * steps * (steps + 1))
     tol = max(den // 10 ** 9, err)
-    return tol, max(den // 10 ** 6, 4 * tol)
+    return tol, max(den // 10 ** 6, 2 * tol)
 
 
 def _tol_float(case):
@@ -215,7 +219,7 @@ def model_terms(case, res):
     lm = "lm"
     V, W = cn(case["V"]), cn(case["width"])
     inits = clz(case["inits"])
-    tolz, marginz = _tol_margin(case, den, tab)
+    tolz, marginz = _tol_margin(case, den, tab, res.get("S"))
     margin, tol = cz(marginz), cz(tolz)
     head = f"{lm} {V} {W} {_eos(case)} {cb(case['fin_all'])} {cz(case['pad'])} {cn(_fuel(case))}"
     tied = f"tied_search {head} {inits} {margin}"
@@ -902,7 +906,7 @@ def run(chk, cases=None):
         "sums are compared with tolerance 1e-9 (regime T), decisions kept at margin 1e-6",
         "extreme-magnitude / float32 cases: the oracle is torch's log_softmax in the table's own dtype (numerically stable: "
         "finite for all finite logits); tolerance = max(1e-9, u*max|logp|*steps*(steps+1)), u = 2^-51 (float64) or 2^-22 "
-        "(float32), margin = max(1e-6, 4*tolerance)",
+        "(float32), steps = y.size(0), margin = max(1e-6, 2*tolerance)",
         "slots with score -inf are compared only by position (torch.topk's tie-break among -inf candidates is unspecified)",
         "cells of y beyond y_lens are not compared (documented as invalid)",
         "the test LM acts row-wise on the batch and reads only hist[idx-1] and its own state; it refuses idx > hist.size(0) "
